@@ -595,7 +595,9 @@ static int push_args(Node *node) {
     }
     case TY_FLOAT:
     case TY_DOUBLE:
-      if (fp++ >= FP_MAX) {
+      if (fp < FP_MAX) {
+        fp++;
+      } else {
         arg->pass_by_stack = true;
         stack++;
       }
@@ -605,7 +607,9 @@ static int push_args(Node *node) {
       stack += 2;
       break;
     default:
-      if (gp++ >= GP_MAX) {
+      if (gp < GP_MAX) {
+        gp++;
+      } else {
         arg->pass_by_stack = true;
         stack++;
       }
@@ -1477,14 +1481,18 @@ static void assign_lvar_offsets(Obj *prog) {
       }
       case TY_FLOAT:
       case TY_DOUBLE:
-        if (fp++ < FP_MAX)
+        if (fp < FP_MAX) {
+          fp++;
           continue;
+        }
         break;
       case TY_LDOUBLE:
         break;
       default:
-        if (gp++ < GP_MAX)
+        if (gp < GP_MAX) {
+          gp++;
           continue;
+        }
       }
 
       top = align_to(top, 8);
